@@ -1,13 +1,29 @@
 (* C08 — signed transactions execute once, in nonce order, via a bounded pending pool.
    Statements only, about the engine protocol model; revm's validation verdicts and signature
    recovery are universally quantified oracles. *)
-From Brc.Model Require Import Base Table Engine.
-From Brc.Proofs Require Import EngineP.
+From Brc.Model Require Import Base Table Engine EngineRun.
+From Brc.Proofs Require Import EngineP EngineGlobalP.
 From BrcGen Require Import Consts.
 
 Notation FN := MAX_FUTURE_TRANSACTION_NONCES.
 Notation FB := MAX_FUTURE_TRANSACTION_BLOCKS.
 Notation step := (e_step W FN FB INDEXER_ADDRESS).
+(* whole runs (Model/EngineRun.v): [run g cs] is the state after the calls [cs]; [run_all P g cs]
+   says that the decidable predicate [P] holds of every call, evaluated in the state the run has
+   reached when the call is made *)
+Notation run := (EngineRun.run W FN FB INDEXER_ADDRESS).
+Notation run_all := (EngineRun.run_all W FN FB INDEXER_ADDRESS).
+(* H1: the answers of revm's validation consumed by one transact read true ... true false ... false
+   (revm accepts a transaction only with nonce = account nonce, disable_nonce_check is off: once
+   an execution of the call is refused the following ones are ahead of the account) *)
+Notation H1_revm_nonce_rule := (revm_nonce_rule W FN FB INDEXER_ADDRESS).
+(* H2: the account nonces re-read after clear_caches / reorg are the numbers of effective
+   transactions the truncated log keeps *)
+Notation H2_resync_nonces_agree := (resync_nonces_agree W FN FB INDEXER_ADDRESS).
+(* H3: the pool re-read after clear_caches / reorg has one entry per (account, nonce), none parked
+   above the next block;  H3': none already expired at the new height *)
+Notation H3_resync_pool_wf := (resync_pool_wf W FN FB INDEXER_ADDRESS).
+Notation H3'_resync_pool_unexpired := (resync_pool_unexpired W FN FB INDEXER_ADDRESS).
 
 Theorem C08_pool_bounds_pinned : FN = 10 /\ FB = 10.
 Proof. split; reflexivity. Qed.
@@ -57,4 +73,191 @@ Example C08_nonvacuous :
   let g3 := fst (step g2 (CRaw (DSigned 42 1) 0 9 0 [])) in
   let r := step g3 (CRaw (DSigned 42 0) 0 9 0 [true; true; true]) in
   snd r = OOk 3 /\ g_wait (fst r) = 3 /\ nonce_of (fst r) 42 = 3 /\ g_pool (fst r) = [].
+Proof. vm_compute. repeat split. Qed.
+
+(* ------------------------------------------------------------------------------------------
+   Global statements: every state reachable from the empty engine by ANY list of calls.
+   ------------------------------------------------------------------------------------------ *)
+
+(* A1.  For every signer, the transactions that took effect (passed revm's validation), oldest
+   first, carry the nonces 0, 1, ..., nonce - 1: consecutive from 0, each exactly once, whatever
+   the order of inscription; and the account's nonce is their number.  [valid_nonces a log] lists
+   them newest first. *)
+Theorem C08_on_chain_nonces_consecutive :
+  forall cs a,
+    run_all H1_revm_nonce_rule g_init cs = true ->
+    run_all H2_resync_nonces_agree g_init cs = true ->
+    let g := run g_init cs in
+    rev (valid_nonces a (g_log g)) = map N.of_nat (seq 0 (N.to_nat (nonce_of g a))) /\
+    nonce_of g a = N.of_nat (length (valid_nonces a (g_log g))).
+Proof. exact (on_chain_nonces_consecutive W FN FB INDEXER_ADDRESS). Qed.
+Print Assumptions C08_on_chain_nonces_consecutive.
+
+(* H1 is needed, and in exactly this form: the j-th execution of a transact carries nonce n + j
+   while the account is at n + (number of accepted ones before it).  If revm could accept the
+   waiting nonce 1 after refusing nonce 0, the account would have consumed nonce 1 only. *)
+Example C08_consecutive_refuted_without_revm_nonce_rule :
+  let cs := [CMine 1 7; CRaw (DSigned 42 1) 0 9 0 []; CRaw (DSigned 42 0) 0 9 0 [false; true]] in
+  run_all H1_revm_nonce_rule g_init cs = false /\ run_all H2_resync_nonces_agree g_init cs = true /\
+  rev (valid_nonces 42 (g_log (run g_init cs))) = [1] /\ nonce_of (run g_init cs) 42 = 1.
+Proof. vm_compute. repeat split. Qed.
+
+(* H2 is needed: the nonces after clear_caches are an input of the protocol model. *)
+Example C08_consecutive_refuted_without_faithful_resync :
+  let cs := [CMine 1 7; CTx 42 0 9 0 true; CFinalise 9 0 1; CClear (Some 1) [(0, 1); (1, 2)] [] []] in
+  run_all H1_revm_nonce_rule g_init cs = true /\ run_all H2_resync_nonces_agree g_init cs = false /\
+  rev (valid_nonces 42 (g_log (run g_init cs))) = [0] /\ nonce_of (run g_init cs) 42 = 0.
+Proof. vm_compute. repeat split. Qed.
+
+(* What A1 does NOT say (known finding F14): "each nonce at most once" holds of the effective
+   transactions only.  A transaction refused at revm validation is recorded (it gets a receipt)
+   and keeps its nonce, so the same (account, nonce) is recorded again: *)
+Example C08_refused_nonce_recorded_twice_F14 :
+  let cs := [CMine 1 7; CRaw (DSigned 42 0) 0 9 0 [false]; CRaw (DSigned 42 0) 1 9 0 [true]] in
+  run_all H1_revm_nonce_rule g_init cs = true /\
+  map (fun e => (l_idx e, l_acct e, l_nonce e, l_valid e)) (g_log (run g_init cs)) = [(1, 42, 0, true); (0, 42, 0, false)] /\
+  valid_nonces 42 (g_log (run g_init cs)) = [0].
+Proof. vm_compute. repeat split. Qed.
+
+(* ... and a refused head takes its waiting successors with it: the drain goes on after the
+   refusal, each waiting transaction is executed ahead of the account's nonce, refused by revm
+   (H1), recorded, and removed from the pool without ever taking effect. *)
+Example C08_refused_head_burns_waiting_successors_F14 :
+  let cs := [CMine 1 7; CRaw (DSigned 42 2) 0 9 0 []; CRaw (DSigned 42 1) 0 9 0 []] in
+  let r := step (run g_init cs) (CRaw (DSigned 42 0) 0 9 0 [false; false; false]) in
+  H1_revm_nonce_rule (run g_init cs) (CRaw (DSigned 42 0) 0 9 0 [false; false; false]) = true /\
+  snd r = OOk 3 /\ g_pool (fst r) = [] /\ nonce_of (fst r) 42 = 0 /\ valid_nonces 42 (g_log (fst r)) = [].
+Proof. vm_compute. repeat split. Qed.
+
+(* A2.  One transact that returns k receipts appended exactly k entries to the log: block
+   next_h, indexes tx_idx, tx_idx+1, ..., account a, nonces n, n+1, ... ([drained_entries], oldest
+   first, with the oracle's verdicts).  If k >= 1: n was the account's nonce and tx_idx the next
+   index; every nonce strictly between n and n+k was waiting in the pool and still fresh (next_h <
+   FB + the block it was parked in); the drain stopped at n+k because that nonce was absent, or
+   present but expired; the pool afterwards is the pool before without the keys (a, n+1) ...
+   (a, n+k) (the expired entry is dropped as well): in particular nothing under (a, n+1..n+k)
+   remains. *)
+Theorem C08_executed_at_consecutive_indexes :
+  forall g a n idx ts h vs k,
+    snd (step g (CRaw (DSigned a n) idx ts h vs)) = OOk k ->
+    let g' := fst (step g (CRaw (DSigned a n) idx ts h vs)) in
+    g_log g' = rev (drained_entries (next_h g) idx a n vs (N.to_nat k)) ++ g_log g /\
+    (1 <= k ->
+     n = nonce_of g a /\ idx = g_wait g /\
+     (forall j, n < j -> j < n + k -> exists b, pool_find g a j = Some b /\ next_h g < FB + b) /\
+     (pool_find g a (n + k) = None \/
+      exists b, pool_find g a (n + k) = Some b /\ FB + b <= next_h g) /\
+     g_pool g' = filter (out_of_range a (n + 1) (n + k)) (g_pool g) /\
+     (forall j, n < j -> j <= n + k -> pool_find g' a j = None)).
+Proof. exact (transact_drain_spec W FN FB INDEXER_ADDRESS). Qed.
+Print Assumptions C08_executed_at_consecutive_indexes.
+
+(* the shape of the appended entries, spelled out *)
+Theorem C08_drained_entries_shape :
+  forall number idx a n vs m,
+    map l_block (drained_entries number idx a n vs m) = repeat number m /\
+    map l_acct (drained_entries number idx a n vs m) = repeat a m /\
+    map l_idx (drained_entries number idx a n vs m) = map (fun i => idx + N.of_nat i) (seq 0 m) /\
+    map l_nonce (drained_entries number idx a n vs m) = map (fun i => n + N.of_nat i) (seq 0 m).
+Proof. exact drained_entries_shape. Qed.
+
+(* A waiting successor that is still fresh runs in the same call as its predecessor. *)
+Theorem C08_waiting_successor_runs_with_predecessor :
+  forall g a n idx ts h vs k b,
+    snd (step g (CRaw (DSigned a n) idx ts h vs)) = OOk k -> 1 <= k ->
+    pool_find g a (n + 1) = Some b -> next_h g < FB + b -> 2 <= k.
+Proof. exact (transact_takes_waiting_successor W FN FB INDEXER_ADDRESS). Qed.
+Print Assumptions C08_waiting_successor_runs_with_predecessor.
+
+(* A3 (i), (ii).  In every reachable state the pool holds at most one entry per (account, nonce),
+   and every entry was parked in a block not above the next one. *)
+Theorem C08_pool_invariants :
+  forall cs,
+    run_all H3_resync_pool_wf g_init cs = true ->
+    let g := run g_init cs in
+    NoDup (map fst (g_pool g)) /\ forall p, In p (g_pool g) -> snd p <= next_h g.
+Proof. exact (run_PoolInv W FN FB INDEXER_ADDRESS). Qed.
+Print Assumptions C08_pool_invariants.
+
+(* A3 (iii), globally.  In every reachable state no entry is expired at the height of the chain. *)
+Theorem C08_pool_never_holds_expired :
+  forall cs,
+    run_all H3'_resync_pool_unexpired g_init cs = true ->
+    let g := run g_init cs in
+    forall h, g_h g = Some h -> forall p, In p (g_pool g) -> h < snd p + FB.
+Proof. exact (fun cs => run_PoolFresh W FN FB INDEXER_ADDRESS cs eq_refl). Qed.
+Print Assumptions C08_pool_never_holds_expired.
+
+(* A3 (iii), one step.  An accepted finalise (mine) for block b removes exactly the entries with
+   parked_in + FB <= b. *)
+Theorem C08_finalise_sweeps_expired :
+  forall g ts h cnt,
+    snd (step g (CFinalise ts h cnt)) = OOk 0 ->
+    let g' := fst (step g (CFinalise ts h cnt)) in
+    g_h g' = Some (next_h g) /\
+    forall p, In p (g_pool g') <-> In p (g_pool g) /\ next_h g < snd p + FB.
+Proof. exact (finalise_sweeps_expired W FN FB INDEXER_ADDRESS). Qed.
+
+Theorem C08_mine_sweeps_expired :
+  forall g cnt ts,
+    snd (step g (CMine cnt ts)) = OOk 0 -> 0 < cnt ->
+    let g' := fst (step g (CMine cnt ts)) in
+    g_h g' = Some (next_h g + cnt - 1) /\
+    forall p, In p (g_pool g') <-> In p (g_pool g) /\ next_h g + cnt - 1 < snd p + FB.
+Proof. exact (mine_sweeps_expired W FN FB INDEXER_ADDRESS). Qed.
+Print Assumptions C08_mine_sweeps_expired.
+
+(* A3 (iv).  An entry leaves the pool only by execution in a drain (while fresh; the log holds its
+   execution), by expiry found in a drain, by replacement (same account and nonce inscribed again,
+   newer block), by the expiry sweep of a block being finalised, or by clear_caches / reorg. *)
+Theorem C08_pool_entry_leaves_only :
+  forall g c p,
+    (NoDup (map fst (g_pool g)) /\ forall q, In q (g_pool g) -> snd q <= next_h g) ->
+    In p (g_pool g) -> ~ In p (g_pool (fst (step g c))) ->
+    (exists a n idx ts h vs k, c = CRaw (DSigned a n) idx ts h vs /\ snd (step g c) = OOk k /\
+       fst (fst p) = a /\ n < snd (fst p) /\ snd (fst p) < n + k /\ next_h g < FB + snd p /\
+       In (next_h g, idx + (snd (fst p) - n), a, snd (fst p), nth (N.to_nat (snd (fst p) - n)) vs true)
+          (g_log (fst (step g c)))) \/
+    (exists a n idx ts h vs k, c = CRaw (DSigned a n) idx ts h vs /\ snd (step g c) = OOk k /\ 1 <= k /\
+       fst p = (a, n + k) /\ FB + snd p <= next_h g) \/
+    (exists a n idx ts h vs, c = CRaw (DSigned a n) idx ts h vs /\ fst p = (a, n) /\ snd p < next_h g /\
+       In (a, n, next_h g) (g_pool (fst (step g c)))) \/
+    (((exists ts h cnt, c = CFinalise ts h cnt) \/ (exists cnt ts, c = CMine cnt ts) \/ (exists h ts hg, c = CInit h ts hg)) /\
+     exists b, g_h (fst (step g c)) = Some b /\ snd p + FB <= b) \/
+    (exists hc bl nn pl, c = CClear hc bl nn pl) \/
+    (exists n nn pl, c = CReorg n nn pl).
+Proof. exact (pool_entry_leaves_only W FN FB INDEXER_ADDRESS). Qed.
+Print Assumptions C08_pool_entry_leaves_only.
+
+(* Non-vacuity of the global statements: nonces 2, 1 and 4 inscribed before 0 (block 1); 0 arrives
+   and 0, 1, 2 run at indexes 0, 1, 2; nine blocks later 3 arrives in block 11 = 1 + FB: its drain
+   finds 4 expired and drops it; reorg back to block 10 (nonce 3 and the waiting 4 come back), the
+   next block sweeps 4, and 3 runs again in block 12.  All hypotheses hold along the run. *)
+Definition C08_example_run : list call :=
+  [ CMine 1 7;
+    CRaw (DSigned 42 2) 0 9 0 []; CRaw (DSigned 42 1) 0 9 0 []; CRaw (DSigned 42 4) 0 9 0 [];
+    CRaw (DSigned 42 0) 0 9 0 [true; true; true];
+    CFinalise 9 0 3;
+    CMine 9 11;
+    CRaw (DSigned 42 3) 0 12 0 [true];
+    CFinalise 12 0 1;
+    CReorg 10 [(42, 3)] [(42, 4, 1)];
+    CMine 1 13;
+    CRaw (DSigned 42 3) 0 14 0 [true] ].
+
+Example C08_global_nonvacuous :
+  run_all H1_revm_nonce_rule g_init C08_example_run = true /\
+  run_all H2_resync_nonces_agree g_init C08_example_run = true /\
+  run_all H3_resync_pool_wf g_init C08_example_run = true /\
+  run_all H3'_resync_pool_unexpired g_init C08_example_run = true /\
+  (* receipts of the four deliveries: 3 (0 with 1 and 2), 1 (3; 4 expired in the drain), reorg, 1 *)
+  map (fun i => snd (step (run g_init (firstn i C08_example_run)) (nth i C08_example_run CBadParams))) [4; 7; 9; 11]%nat
+    = [OOk 3; OOk 1; OOk 0; OOk 1] /\
+  g_pool (run g_init (firstn 7 C08_example_run)) = [(42, 4, 1)] /\
+  g_pool (run g_init (firstn 8 C08_example_run)) = [] /\
+  g_pool (run g_init (firstn 10 C08_example_run)) = [(42, 4, 1)] /\
+  g_pool (run g_init (firstn 11 C08_example_run)) = [] /\
+  map (fun e => (l_block e, l_idx e, l_nonce e)) (g_log (run g_init C08_example_run))
+    = [(12, 0, 3); (1, 2, 2); (1, 1, 1); (1, 0, 0)] /\
+  nonce_of (run g_init C08_example_run) 42 = 4.
 Proof. vm_compute. repeat split. Qed.
